@@ -12,7 +12,8 @@ namespace RV.C13
 
 /-- ⊢ every read leaves the quads and the set of graphs exactly as they were — for every dataset,
     including blank-node-named and registered-empty graphs, `defaultUnion` on or off,
-    Dataset / ConjunctiveGraph / plain Graph. -/
+    Dataset / ConjunctiveGraph / plain Graph, whatever prefixes are bound.  (Prefix bindings, the `ns`
+    component, are outside the statement: see `namespaces_may_grow`.) -/
 def Statement_read_frame : Prop :=
   ∀ (s : State) (r : ReadOp), WF s →
     (s.run r).1.quads = s.quads ∧ SetEq (s.run r).1.graphNames s.graphNames ∧
@@ -40,7 +41,17 @@ def Statement_same_store_view_is_noop : Prop :=
 /-- the hypothesis `WF` costs nothing: every history of store writes from an empty store gives it -/
 def Statement_wf_reachable : Prop :=
   ∀ (du ds : Bool) (dn : GName) (ws : List Write), (ds = true → dn = .dflt) →
-    WF ((⟨[], [], du, ds, dn⟩ : State).writes ws)
+    WF ((⟨[], [], du, ds, dn, []⟩ : State).writes ws)
+
+/-- Prefix bindings: exactly the reads with `mayBind` (turtle/n3, longturtle, rdf/xml, pretty-xml, trig,
+    `qname`/`compute_qname`) can add bindings; bindings are never removed; what is added is the namespace of a
+    predicate (pretty-xml: or class) the serializer writes / of the IRI asked for (`mayBindNs`); and — by
+    `read_frame` — nothing else changes. -/
+def Statement_namespaces_may_grow : Prop :=
+  ∀ (s : State) (r : ReadOp), WF s →
+    (r.mayBind = false → (s.run r).1.ns = s.ns) ∧
+    (∀ n ∈ s.ns, n ∈ (s.run r).1.ns) ∧
+    (∀ n ∈ (s.run r).1.ns, n ∈ s.ns ∨ r.mayBindNs s n)
 
 /-- the pre-fix JSON-LD serializer (kept as `serializeJsonldBuggy`) would satisfy the frame clause -/
 def Statement_jsonld_buggy_frame : Prop :=
@@ -59,14 +70,67 @@ theorem read_deterministic : Statement_read_deterministic :=
 theorem frame_compose : Statement_frame_compose := by
   intro s rs h
   refine ⟨?_, runAll_wf rs h⟩
-  rcases runAll_state rs h with h1 | h1 <;> rw [h1]
-  · exact Frame.refl s
-  · exact frame_contextsCall h
+  rcases runAll_state rs h with h1 | h1
+  · exact h1.frame
+  · exact (frame_contextsCall h).trans h1.frame
 
 theorem read_after_reads_same : Statement_read_after_reads_same := by
   intro s rs r h
-  rcases runAll_state rs h with h1 | h1 <;> rw [h1]
-  exact run_out_cc h r
+  rcases runAll_state rs h with h1 | h1
+  · exact run_out_nsExt h h1 r
+  · rw [run_out_nsExt (contextsCall_wf h) h1 r]
+    exact run_out_cc h r
+
+theorem namespaces_may_grow : Statement_namespaces_may_grow := by
+  intro s r h
+  refine ⟨?_, ?_, ?_⟩
+  · intro hb
+    rcases run_state_nobind h r hb with h1 | h1 <;> rw [h1]
+    exact contextsCall_ns s
+  · intro n hn
+    rcases run_state h r with h1 | h1
+    · exact h1.mono n hn
+    · exact h1.mono n (by rw [contextsCall_ns]; exact hn)
+  · intro n hn
+    by_cases hb : r.mayBind = false
+    · left
+      rcases run_state_nobind h r hb with h1 | h1 <;> rw [h1] at hn
+      · exact hn
+      · rw [contextsCall_ns] at hn; exact hn
+    · cases r with
+      | serializeTurtle nsOf =>
+        rcases preprocessTriples_ns_mem nsOf _ _ n hn with h1 | h1
+        · rcases preprocessTriples_ns_mem nsOf _ _ n h1 with h2 | h2
+          · exact Or.inl h2
+          · exact Or.inr h2
+        · exact Or.inr h1
+      | serializeLongTurtle nsOf c f =>
+        rcases preprocessTriples_ns_mem nsOf _ _ n hn with h1 | h1
+        · rcases preprocessTriples_ns_mem nsOf _ _ n h1 with h2 | h2
+          · exact Or.inl h2
+          · exact Or.inr h2
+        · exact Or.inr h1
+      | serializeXml nsOf =>
+        rcases bindPredicates_ns_mem nsOf _ _ n hn with h1 | h1
+        · rcases bindPredicates_ns_mem nsOf _ _ n h1 with h2 | h2
+          · exact Or.inl h2
+          · exact Or.inr h2
+        · exact Or.inr h1
+      | serializePrettyXml nsOf ty d =>
+        rcases bindTypes_ns_mem nsOf ty _ _ n hn with h1 | ⟨t, ht, h2⟩
+        · rcases bindPredicates_ns_mem nsOf _ _ n h1 with h2 | ⟨t, ht, h2⟩
+          · exact Or.inl h2
+          · exact Or.inr ⟨t, ht, Or.inl h2⟩
+        · exact Or.inr ⟨t, ht, Or.inr h2⟩
+      | serializeTrig nsOf =>
+        rcases trigPreprocess_ns_mem nsOf _ _ _ n hn with h1 | ⟨q, hq, h2⟩
+        · rw [contextsCall_ns] at h1; exact Or.inl h1
+        · rw [contextsCall_quads] at hq; exact Or.inr ⟨q, hq, h2⟩
+      | qname nsOf t =>
+        rcases getQName_ns_mem hn with h1 | ⟨_, h2⟩
+        · exact Or.inl h1
+        · exact Or.inr h2
+      | _ => exact absurd rfl hb
 
 theorem same_store_view_is_noop : Statement_same_store_view_is_noop := by
   intro s g h
@@ -82,7 +146,7 @@ theorem wf_reachable : Statement_wf_reachable := by
 /-! ### the defect that was repaired, as a regression witness -/
 
 /-- one blank-node-named graph holding one triple; default graph not registered yet -/
-def witness : State := ⟨[((4, 10, 23), .bnode 3)], [.bnode 3], false, true, .dflt⟩
+def witness : State := ⟨[((4, 10, 23), .bnode 3)], [.bnode 3], false, true, .dflt, []⟩
 
 /-- the pre-fix code copies the blank-node graph's triple into the dataset's own default graph -/
 theorem jsonld_buggy_breaks_frame : ¬ Statement_jsonld_buggy_frame := by
@@ -110,7 +174,7 @@ theorem foreign_graph_copy_is_write :
     graphs, default graph populated but reads of every kind keep it — and `WF` holds of it -/
 def sample : State :=
   ⟨[((1, 10, 2), .dflt), ((1, 10, 2), .iri 1), ((4, 11, 20), .bnode 3), ((4, 11, 5), .bnode 3)],
-   [.dflt, .iri 1, .bnode 3, .iri 2], true, true, .dflt⟩
+   [.dflt, .iri 1, .bnode 3, .iri 2], true, true, .dflt, [7]⟩
 
 example : WF sample := by decide
 example : WF witness := by decide
@@ -121,9 +185,9 @@ example : (sample.run (.contains4 (none, none, none) (.view (.bnode 3)))).1.quad
     (sample.run (.contains4 (some 4, none, none) (.view (.bnode 3)))).2 = .bool true := by decide
 /-- without `WF` (a quad whose graph was never registered) the self-copy WOULD register the graph:
     the hypothesis is used -/
-example : ¬ SetEq ((⟨[((1, 10, 2), .iri 7)], [], false, true, .dflt⟩ : State).run
+example : ¬ SetEq ((⟨[((1, 10, 2), .iri 7)], [], false, true, .dflt, []⟩ : State).run
       (.quads4 (none, none, none) (.view (.iri 7)))).1.graphNames
-    (⟨[((1, 10, 2), .iri 7)], [], false, true, .dflt⟩ : State).graphNames := by
+    (⟨[((1, 10, 2), .iri 7)], [], false, true, .dflt, []⟩ : State).graphNames := by
   intro h
   exact absurd ((h (.iri 7)).mp (by decide)) (by decide)
 /-- documents a FROM clause can load in the examples: IRI 50 holds two triples, nothing else loads -/
@@ -132,16 +196,54 @@ def sampleDocs : GName → Option (List Triple)
   | _ => none
 
 /-- FROM / FROM NAMED: the answer is computed from scratch copies, the dataset is returned untouched -/
-example : (sample.run (.query ⟨[.dflt (.iri 1), .named (.bnode 3)], true, true, sampleDocs,
-      fun v => [[v.dflt.length, v.named.length]]⟩)) = (sample, .rows [[1, 1]]) := by decide
+example : (sample.run (.query ⟨[.dflt (.iri 1), .named (.bnode 3)], true, [], true, sampleDocs,
+      fun v => [[v.dflt.length, v.named.length]], .select⟩)) = (sample, .rows [[1, 1]]) := by decide
 /-- one known non-empty FROM graph plus a LOADABLE document (the shape of seeded change C13-4): the document's
     triples join the scratch default graph (1 + 2 triples are visible to the query), the dataset is untouched;
     with SPARQL_LOAD_GRAPHS off nothing is loaded; an IRI that cannot be loaded raises — state untouched -/
-example : (sample.run (.query ⟨[.dflt (.iri 1), .dflt (.iri 50)], false, true, sampleDocs,
-      fun v => [[v.dflt.length]]⟩)) = (sample, .rows [[3]]) := by decide
-example : (sample.run (.query ⟨[.dflt (.iri 1), .dflt (.iri 50)], false, false, sampleDocs,
-      fun v => [[v.dflt.length]]⟩)) = (sample, .rows [[1]]) := by decide
-example : (sample.run (.query ⟨[.dflt (.iri 1), .named (.iri 51)], false, true, sampleDocs,
-      fun v => [[v.dflt.length]]⟩)) = (sample, .err) := by decide
+example : (sample.run (.query ⟨[.dflt (.iri 1), .dflt (.iri 50)], false, [], true, sampleDocs,
+      fun v => [[v.dflt.length]], .select⟩)) = (sample, .rows [[3]]) := by decide
+example : (sample.run (.query ⟨[.dflt (.iri 1), .dflt (.iri 50)], false, [], false, sampleDocs,
+      fun v => [[v.dflt.length]], .select⟩)) = (sample, .rows [[1]]) := by decide
+example : (sample.run (.query ⟨[.dflt (.iri 1), .named (.iri 51)], false, [], true, sampleDocs,
+      fun v => [[v.dflt.length]], .select⟩)) = (sample, .err) := by decide
+/-- CONSTRUCT and DESCRIBE fill a fresh result graph; `GRAPH <g>` switches the context's graph, not the dataset -/
+example : (sample.run (.query ⟨[], false, [.bnode 3], true, sampleDocs,
+      fun v => (v.named.map (fun b => b.2.length)) :: [], .construct (fun r => r.map (fun x => (x, x, x)))⟩))
+    = (sample, .triples [(2, 2, 2)]) := by decide
+example : (sample.run (.query ⟨[], false, [], true, sampleDocs, fun _ => [[1]], .describe (fun _ => false)⟩))
+    = (sample, .triples [(1, 10, 2)]) := by decide
+
+/-! ### prefix bindings: really written by some reads, never part of the frame -/
+
+/-- namespaces of the example terms: predicate 10 lives in namespace 7 (already bound in `sample`),
+    predicate 11 in namespace 8 (unbound), class 20 in namespace 9 -/
+def sampleNs : Nat → Option Nat
+  | 10 => some 7
+  | 11 => some 8
+  | 20 => some 9
+  | _ => none
+
+/-- Turtle on `sample` (union view): the unbound namespace 8 of predicate 11 gets a prefix; quads, graphs untouched -/
+example : (sample.run (.serializeTurtle sampleNs)).1 = { sample with ns := [7, 8] } := by decide
+/-- pretty-xml with `rdf:type` = 11 additionally binds the namespace of the class 20 -/
+example : (sample.run (.serializePrettyXml sampleNs 11 3)).1.ns = [7, 8, 9] := by decide
+/-- longturtle with `canon=True` reads a relabelled scratch copy but still binds in the ORIGINAL's tables -/
+example : (sample.run (.serializeLongTurtle sampleNs true (fun ts => ts.map (fun t => (t.1 + 100, t.2.1, t.2.2))))).1
+    = { sample with ns := [7, 8] } := by decide
+/-- TriG registers the default graph (already registered here) and binds per context -/
+example : (sample.run (.serializeTrig sampleNs)).1 = { sample with ns := [7, 8] } := by decide
+/-- a patch against another dataset builds two scratch datasets; `sample` itself is returned -/
+example : (sample.run (.serializePatchTarget [((1, 10, 2), .dflt), ((9, 9, 9), .iri 5)])).1 = sample := by decide
+/-- nquads / json-ld / queries / compare / skolemize(new_graph=None) bind nothing -/
+example : (sample.run .serializeCtxs).1 = sample ∧ (sample.run .serializeJsonld).1 = sample ∧
+    (sample.run (.skolemize (· + 1000))).1 = sample := by decide
+
+/-! ### `skolemize(new_graph=…)`: a fresh graph is a read, a graph of the same store is a write -/
+
+/-- `g.skolemize(new_graph=h)` with `h` on the same store adds the skolemized copy to `h` -/
+theorem skolemize_into_same_store_is_write :
+    ∃ (s : State) (h : GName) (sk : Nat → Nat), WF s ∧ (s.skolemizeInto h sk).quads ≠ s.quads :=
+  ⟨sample, .iri 1, (· + 1000), by decide, by decide⟩
 
 end RV.C13
